@@ -69,7 +69,7 @@ impl Property for C15 {
         ]
     }
     fn plan(&self, tier: Tier) -> Plan {
-        Plan { workers: tier.pick(4, 16), cases_per_worker: tier.pick(5_000, 40_000), max_shrink_iters: 3000 }
+        Plan { workers: tier.pick(4, 16), cases_per_worker: tier.pick(50_000, 200_000), max_shrink_iters: 3000 }
     }
     fn selftest(&self) -> Result<serde_json::Value, String> {
         crate::selftest::model_vs_recorded()
